@@ -8,7 +8,7 @@ from .runner import Plan
 class C09Plan(Plan):
     prop = "C09"
     oracles = ("replica",)
-    runs = {"quick": 50_000, "thorough": 4_000_000}
+    runs = {"quick": 50_000, "thorough": 3_000_000}
     rule = ("each run = seeded world (expression DAG with shared node objects, tripwire sub-expressions) + "
             "2-4 logical clients whose public-API operations are interleaved by the seeded scheduler; "
             "after every operation the same operation is performed on freshly built, never-used copies and "
